@@ -266,13 +266,6 @@ package ggql
 //@   requires recv != nil
 //@   requires a != nil
 
-//@ func (*Directive).Validate
-//@   props C03
-//@   check panic {C03}
-//@   requires recv != nil
-//@   requires root != nil
-//@   requires[own-name-registered] dirName(recv.N)
-
 //@ func (*Enum).AddValue
 //@   props C03
 //@   check panic {C03}
@@ -290,12 +283,6 @@ package ggql
 //@   check panic {C03}
 //@   requires recv != nil
 //@   requires x != nil && ptrval(x) != 0
-
-//@ func (*Enum).Validate
-//@   props C03
-//@   check panic {C03}
-//@   requires recv != nil
-//@   requires root != nil
 
 //@ func (*Arg).Write
 //@   props C03
@@ -344,13 +331,6 @@ package ggql
 //@   check panic {C03}
 //@   requires recv != nil
 //@   requires x != nil && ptrval(x) != 0
-
-//@ func (*Schema).Validate
-//@   props C03
-//@   check panic {C03}
-//@   requires fieldDefsOk(recv.fields.list)
-//@   requires recv != nil
-//@   requires root != nil
 
 //@ func (*FragRef).Validate
 //@   props C03
